@@ -97,6 +97,21 @@ func gen(t *rapid.T) Scenario {
 	for i := 0; i < na; i++ {
 		sc.Arrivals = append(sc.Arrivals, Arrival{AtMs: rapid.IntRange(0, sc.RunMs).Draw(t, "at"), Txs: sw.GenTxs(t)})
 	}
+	if rapid.IntRange(0, 2).Draw(t, "stream") == 0 {
+		// a continuous flow of transactions (every reaping interval finds new ones), often with block
+		// production slower than the reaping interval
+		every := rapid.SampledFrom([]int{sc.BlockMs / 2, sc.BlockMs, sc.BlockMs}).Draw(t, "every")
+		if every < 1 {
+			every = 1
+		}
+		from := rapid.IntRange(0, sc.RunMs/2).Draw(t, "streamfrom")
+		for i, n := 0, rapid.IntRange(5, 30).Draw(t, "streamlen"); i < n && from+i*every < sc.RunMs; i++ {
+			sc.Arrivals = append(sc.Arrivals, Arrival{AtMs: from + i*every, Txs: [][]byte{[]byte(fmt.Sprintf("stream-%d-%d", from, i))}})
+		}
+		if rapid.Bool().Draw(t, "streamslow") {
+			sc.AggExecMs = rapid.SampledFrom([]int{sc.BlockMs + sc.BlockMs/2, 3 * sc.BlockMs}).Draw(t, "streamexec")
+		}
+	}
 	if sc.Mode == "both" && rapid.IntRange(0, 3).Draw(t, "latejoin") == 0 {
 		sc.FullStartMs = rapid.IntRange(1, 10).Draw(t, "joinafter") * sc.BlockMs
 	}
